@@ -10,6 +10,24 @@
   service (`resp`, merged per location by `convert_response`) and registered in code (`custom`), several on one
   location or on locations never reached, every gate outcome (`Event.denied` — an arbitrary function of the event
   position), every event stream, every interleaving of any number of threads.  No bound anywhere.
+
+  Scope, stated as it is:
+  * Method locations WITHOUT a name (`Loc.nameless`: stage method_* / span=method without `method_name`, which the
+    service can send) are in the model with the translated test `start <= line >= end` over a `getsourcelines`
+    oracle; the property speaks of "a method tracepoint with a method name" only.  `c03_exact`, `c03_only_if`,
+    `c03_if`, `c03_count`, `c03_independent` hold for them too (they say "the tracepoints whose location says here"),
+    but *where* such a location says "here" is not a function entry: `c03_nameless_witness` (known finding
+    `C03/nameless-method-location`).  The theorems about event kinds therefore carry the hypothesis `Loc.named`
+    (`c03_kinds_partial`, `c03_not_on_return_exception_partial`).  A nameless location that matched becomes the
+    named location of that function: the installed triggers are state (`Trigger.runS`); `run` (fixed triggers) is
+    that run exactly when every method location has a name (`c03_run_faithful_partial`).
+  * Delivered events only: `__trace_call` returns `None` for a `call` event while no tracepoint is installed, so a
+    frame entered during that time is never line-traced, also after a configuration arrives; the property (and
+    every theorem here) quantifies over the events Python delivers to the trace function.
+  * Faults: the trigger phase of an event is never abandoned in the model.  In the code an exception that is not an
+    `Exception` (BaseException) raised by a pending callback processed at the same event leaves
+    `__process_call_backs`, the catch-all of `trace_call` ends the event, and the tracepoints at that event do not
+    act (d5aa530 contains `Exception` per callback only).  Callbacks are assumed not to raise BaseException.
 -/
 import DeepModel.Proofs.Trigger
 
@@ -38,15 +56,37 @@ theorem c03_func_iff (p f : String) (ev : Event) :
 
 /-- **no other trace event** — a `return`, an `exception` (or anything else that is not `line`/`call`) is at no
     location. -/
-theorem c03_kinds (l : Loc) (ev : Event) (h : l.matches ev = true) : ev.kind = "line" ∨ ev.kind = "call" :=
-  matches_kind l ev h
+theorem c03_kinds_partial (l : Loc) (hn : l.named = true) (ev : Event) (h : l.matches ev = true) :
+    ev.kind = "line" ∨ ev.kind = "call" :=
+  matches_kind l hn ev h
 
-theorem c03_not_on_return_exception (l : Loc) (ev : Event) (h : ev.kind = "return" ∨ ev.kind = "exception") :
-    l.matches ev = false := by
+theorem c03_not_on_return_exception_partial (l : Loc) (hn : l.named = true) (ev : Event)
+    (h : ev.kind = "return" ∨ ev.kind = "exception") : l.matches ev = false := by
   cases hm : l.matches ev with
   | false => rfl
   | true =>
-    rcases matches_kind l ev hm with h' | h' <;> rcases h with h | h <;> rw [h] at h' <;> exact absurd h' (by decide)
+    rcases matches_kind l hn ev hm with h' | h' <;> rcases h with h | h <;> rw [h] at h' <;>
+      exact absurd h' (by decide)
+
+/-- **the hypothesis `named` is needed** (known finding `C03/nameless-method-location`) — a method tracepoint
+    without a method name on a 5-line module (getsourcelines of a module frame: start 0, 5 lines): it is "here" at
+    the `line` event AND at the `return` event of the module's last line (the translated test `start <= line >= end`
+    looks at neither the event kind nor the tracepoint's own line), its action runs there, and it then is the named
+    location of `<module>`. -/
+theorem c03_nameless_witness :
+    (Loc.nameless "a.py" [("<module>", 0, 5)]).matches ⟨"line", "/x/a.py", 5, "<module>", 0, 0, [], []⟩ = true ∧
+    (Loc.nameless "a.py" [("<module>", 0, 5)]).matches ⟨"return", "/x/a.py", 5, "<module>", 0, 0, [], []⟩ = true ∧
+    (Loc.nameless "a.py" [("<module>", 0, 5)]).matches ⟨"line", "/x/a.py", 4, "<module>", 0, 0, [], []⟩ = false ∧
+    fired (install [⟨.nameless "a.py" [("<module>", 0, 5)], [⟨0, .log⟩]⟩] [])
+      ⟨"line", "/x/a.py", 5, "<module>", 0, 0, [], []⟩ = [⟨0, .log⟩] ∧
+    (Loc.nameless "a.py" [("<module>", 0, 5)]).settle ⟨"line", "/x/a.py", 5, "<module>", 0, 0, [], []⟩
+      = Loc.func "a.py" "<module>" := by decide
+
+/-- with every method location named the installed triggers never change: the run over fixed triggers (`run`,
+    which `c03_stream`, `c03_none`, `c03_thread` and all of C15 are about) is the run of the handler -/
+theorem c03_run_faithful_partial (cfg : List Trig) (slot : Option (List Ctx)) (evs : List Event)
+    (hn : AllNamed cfg) : runS cfg slot evs = (run cfg slot evs, cfg) :=
+  runS_named cfg slot evs hn
 
 /-! ### the trigger phase is exactly the configured tracepoints at the location -/
 
@@ -183,25 +223,39 @@ theorem c03_stream (cfg : List Trig) (evs : List Event) :
   rw [run, this, runWith_norm, firedOf_srun]
   rfl
 
-/-- **no matching location, no action at all** — if no event of the stream is at a configured location, the run
-    has no effect whatsoever (nothing runs, nothing is opened, nothing is left pending). -/
-theorem c03_none (cfg : List Trig) (evs : List Event) (h : ∀ ev ∈ evs, actionsFor cfg ev = []) :
-    run cfg none evs = (none, []) := by
+/-- **no matching location, no action at all** — if no event of the stream is at the location of any configured
+    tracepoint (from the service or registered), the run has no effect whatsoever: nothing runs, nothing is opened,
+    nothing is left pending. -/
+theorem c03_none (resp custom : List Tp) (evs : List Event)
+    (h : ∀ ev ∈ evs, ∀ tp ∈ resp ++ custom, tp.loc.matches ev = false) :
+    run (install resp custom) none evs = (none, []) := by
+  have hact : ∀ ev ∈ evs, actionsFor (install resp custom) ev = [] := by
+    intro ev hev
+    have hp := c03_exact resp custom ev
+    have hnil : configuredAt (resp ++ custom) ev = [] := by
+      unfold configuredAt selTp
+      rw [List.filter_eq_nil_iff.mpr (by intro tp htp; simp [h ev hev tp htp])]
+      rfl
+    rw [hnil] at hp
+    exact List.Perm.eq_nil hp
+  clear h
+  generalize install resp custom = cfg at hact
   have hn : (none : Option (List Ctx)) = norm [] := rfl
   rw [run, hn, runWith_norm]
   have : srun (cfg.length : Int) (actionsFor cfg) [] evs = ([], []) := by
     induction evs with
     | nil => rfl
     | cons ev evs ih =>
-      have h0 := h ev (List.mem_cons_self ..)
+      have h0 := hact ev (List.mem_cons_self ..)
       have hf : firedAt (cfg.length : Int) (actionsFor cfg) ev = [] := firedAt_nil_of _ _ _ h0
       have hs : sstep (cfg.length : Int) (actionsFor cfg) [] ev = ([], []) := by
         rw [sstep_eq]; simp [cbsAt, hf, pcPhase]
-      rw [srun_cons, hs, ih (fun e he => h e (List.mem_cons_of_mem _ he))]
+      rw [srun_cons, hs, ih (fun e he => hact e (List.mem_cons_of_mem _ he))]
       rfl
   rw [this]
 
-/-- **thread lift** — in any interleaving of the events of any number of threads, what thread `t` does (its
+/-- tripwire: **thread lift** (a projection lemma: the machine of all threads keeps one slot per thread and gives each
+    event to its thread's slot; it breaks if the translated handler ever reads another thread's state) — in any interleaving of the events of any number of threads, what thread `t` does (its
     effects, its pending contexts) is what it does alone on its own events; other threads' events matter only
     through the gate answers (`denied`, the shared per-action statistics of C04). -/
 theorem c03_thread (cfg : List Trig) (gs : List (Tid × Event)) (t : Tid) :
